@@ -86,7 +86,9 @@ impl<T> InnerQueue<T> {
     pub fn try_recv(&self) -> Result<T, TryRecvError> {
         if !self.sem.try_wait() {
             return match self.tx_ports.load(Ordering::Acquire) {
-                0 => Err(TryRecvError::Disconnected),
+                // values whose permits are held by other receivers may still be
+                // queued, and one of them can end up here: not disconnected yet
+                0 if self.queue.is_empty() => Err(TryRecvError::Disconnected),
                 _ => Err(TryRecvError::Empty),
             };
         }
